@@ -42,7 +42,7 @@ EXT = b'Sec-WebSocket-Extensions: permessage-deflate'
 
 
 def plan(tier):
-    return [('seeded', 3000 if tier == 'quick' else 150000)]
+    return [('seeded', 8000 if tier == 'quick' else 150000)]
 
 
 def make_case(family, i, rng, tier):
